@@ -653,7 +653,7 @@ func init() {
 	})
 	register("C05", func(c *core.Ctx) {
 		asCheck(c, asPlan{prop: "C05", monitors: []string{"LifecycleMon"}, mc: []string{"MC_T3_" + asVariant + ".cfg"}, gen: []string{"Gen_T3_" + asVariant + ".cfg"},
-			ops:  append(append([][2]string{}, asOpsBasic...), [2]string{"become", ""}, [2]string{"become", ""}, [2]string{"become!", ""}, [2]string{"unbecome", ""}, [2]string{"unbecome!", ""}),
+			ops:  append(append([][2]string{}, asOpsBasic...), [2]string{"become", ""}, [2]string{"become", ""}, [2]string{"become!", ""}, [2]string{"unbecome", ""}, [2]string{"unbecome!", ""}, [2]string{"watch", "@"}, [2]string{"watch", "@"}),
 			rule: base + "Judged by LifecycleMon. Plus an ungated run: thousands of spawns next to a greeter that reacts to ActorSpawnedEvent and a sender that tells children by path, with a delay injected just before OnLaunch is enqueued."})
 		if c.IsBroken() {
 			return
